@@ -49,10 +49,47 @@ def sx_e(e):
     raise ValueError(e)
 
 
+def comma_parts(e):
+    """the operands of a (possibly nested) top-level comma expression, left to right; [e] otherwise"""
+    if e is not None and e[0] == 'bin' and e[1] == ',':
+        return comma_parts(e[2]) + comma_parts(e[3])
+    return [e]
+
+
+def has_continue(s):
+    if not isinstance(s, tuple) or not s:
+        return False
+    if s[0] == 'continue':
+        return True
+    if s[0] in ('while', 'do', 'for'):
+        return False
+    if s[0] == 'block':
+        return any(has_continue(x) for x in s[1])
+    if s[0] == 'if':
+        return has_continue(s[2]) or (s[3] is not None and has_continue(s[3]))
+    if s[0] == 'switch':
+        return any(has_continue(x) for _, b in s[2] for x in b) or (s[3] is not None and any(has_continue(x) for x in s[3]))
+    return False
+
+
 def sx_s(s):
     k = s[0]
     if k == 'expr':
+        # a comma expression used as a statement is its operands one after the other (a sequence point
+        # between them): Src/CSem.v has no comma operator
+        parts = comma_parts(s[1])
+        if len(parts) > 1:
+            return '(block%s)' % ''.join(' (expr %s)' % sx_e(x) for x in parts)
         return '(expr %s)' % sx_e(s[1])
+    if k == 'for' and ((s[1] is not None and len(comma_parts(s[1])) > 1) or (s[3] is not None and len(comma_parts(s[3])) > 1)):
+        # for (i1, i2; c; u1, u2) body  ==  i1; i2; while (c) { body; u1; u2; }   (no continue in body)
+        if has_continue(s[4]):
+            raise ValueError('comma in a for header together with continue: not translated')
+        init = [('expr', x) for x in comma_parts(s[1])] if s[1] is not None else []
+        upd = [('expr', x) for x in comma_parts(s[3])] if s[3] is not None else []
+        body = list(s[4][1]) if s[4][0] == 'block' else [s[4]]
+        cond = s[2] if s[2] is not None else ('num', 1)
+        return sx_s(('block', init + [('while', cond, ('block', body + upd))]))
     if k == 'block':
         return '(block%s)' % ''.join(' ' + sx_s(x) for x in s[1])
     if k == 'if':
